@@ -52,7 +52,7 @@ class Job:
                  kind="proof", bound="", functions=None, timeout=600, solver="kissat",
                  includes=None, min_props=1, replayable=True, note="", domain="",
                  extra_sources=None, rec=False, object_bits=None, nocanary=False,
-                 assumptions=None):
+                 assumptions=None, termination_by_unwind=False):
         self.name = name
         self.harness = harness            # path relative to /verif/harness
         self.defines = dict(defines or {})
@@ -78,6 +78,10 @@ class Job:
         self.object_bits = object_bits
         self.nocanary = nocanary
         self.assumptions = list(assumptions or [])
+        # True: a failed unwinding assertion IS the obligation (termination within the bound, e.g. C17 probing);
+        # False (default): a failed unwinding assertion only says the unwinding bound is too small for the current
+        # code -> undecided (exit 2), never a violation
+        self.termination_by_unwind = termination_by_unwind
 
 
 def sh(cmd, timeout=None, cwd=None, mem_kb=None, env=None):
@@ -303,6 +307,10 @@ def cbmc_cmd(job, gb, trace=False):
     cmd = ["cbmc", gb, "--json-ui", "--drop-unused-functions", "--no-malloc-may-fail"] + solver_flags(job)
     if job.unwind is not None:
         cmd += ["--unwind", str(job.unwind), "--unwinding-assertions"]
+        # byte loops of cbmc's own library models get a generous bound of their own, so that code which (newly) calls
+        # memcmp on a few dozen bytes is decided instead of tripping the job's small unwinding bound
+        if not any(f == "--unwindset" for f in job.cbmc_flags):
+            cmd += ["--unwindset", "memcmp.0:%d" % max(72, job.unwind)]
     if job.object_bits:
         cmd += ["--object-bits", str(job.object_bits)]
     cmd += job.cbmc_flags
@@ -438,6 +446,13 @@ def run_job(job):
             # (with a FAILURE present, CBMC 6's assert-then-assume leaves later checks UNKNOWN: the job has failed)
             raise Undecided("obligation with status %s: %s" % (bad_status[0]["status"], bad_status[0]["property"]))
         obl = [r for r in obl if r["status"] in ("SUCCESS", "FAILURE")]
+        if not job.termination_by_unwind:
+            unw = [r for r in failed if ".unwind." in r["property"] or r["property"].endswith(".unwind")]
+            if unw and len(unw) == len(failed):
+                raise Undecided("unwinding assertion failed (%s): the unwinding bound %s is too small for the current code"
+                                % (unw[0]["property"], job.unwind))
+            failed = [r for r in failed if r not in unw]
+            obl = [r for r in obl if r not in unw]
         res["obligations"] = len(obl)
         res["discharged"] = len(obl) - len(failed)
         res["sample_obligations"] = [{"property": r["property"], "description": r.get("description", "")[:160]}
